@@ -992,3 +992,138 @@ Theorem new_taxa_example :
   /\ map (label_of w') (taxa (w_ns w')) = [0; 1; 7; 7; 1; 7].
 Proof. exact bx_repeated_labels. Qed.
 Print Assumptions new_taxa_example.
+
+(* ================= 12. batch additions that FAIL PART-WAY =================
+   Model/C10AbortModel.v: `astep` extends `step` by add_taxa / new_taxa over an iterable that hands over
+   the elements ts (ls) and then fails with e (a generator raising on a bad row, an iterator whose
+   __next__ raises, a list whose next element is unhashable).  `base_of` maps such an operation to the
+   successful batch over exactly the elements handed over. *)
+From DV Require Import Model.C10AbortModel Proofs.C10Abort.
+
+(* 12a. an exception inside the loop neither rolls back nor leaves anything half-written: the state
+   after the failed batch IS the state after the successful batch of the elements handed over (hence,
+   by 11c, after that many single add_taxon calls); the caller sees the namespace's own refusal if
+   there is one, otherwise the iterable's error *)
+Theorem abort_state_is_prefix_state : forall (lower : lbl -> lbl) (w : world) (a : aop),
+  fst (astep lower w a) = fst (step lower w (base_of a))
+  /\ snd (astep lower w a) =
+     match a with
+     | ABase o => snd (step lower w o)
+     | AddTaxaAbort _ e | NewTaxaAbort _ e =>
+       match snd (step lower w (base_of a)) with OErr e' => OErr e' | _ => OErr e end
+     end.
+Proof. exact (fun lower w a => conj (astep_world_l lower w a) (astep_output_l lower w a)). Qed.
+Print Assumptions abort_state_is_prefix_state.
+
+Theorem abort_is_add_taxon_sequence : forall (lower : lbl -> lbl) (w : world) (ts : list tid) (e : err),
+  fst (astep lower w (AddTaxaAbort ts e)) = run_world lower w (map AddTaxon ts).
+Proof.
+  exact (fun lower w ts e => eq_trans (astep_world_l lower w (AddTaxaAbort ts e))
+                                      (add_taxa_is_add_taxon_sequence_l lower w ts)).
+Qed.
+Print Assumptions abort_is_add_taxon_sequence.
+
+(* 12b. the invariant (inv_unfold) and bit stability over histories that contain failing batches *)
+Theorem abort_inv_step : forall (lower : lbl -> lbl) (w : world) (a : aop),
+  Inv (w_ns w) -> Inv (w_ns (fst (astep lower w a))).
+Proof. exact astep_inv_l. Qed.
+Print Assumptions abort_inv_step.
+
+Theorem abort_inv_history : forall (lower : lbl -> lbl) (w : world) (ops : list aop),
+  Inv (w_ns w) -> Inv (w_ns (arun_world lower w ops)).
+Proof. exact aops_inv_l. Qed.
+Print Assumptions abort_inv_history.
+
+Theorem abort_bit_stable : forall (lower : lbl -> lbl) (w : world) (a : aop) (t : tid) (i : Z),
+  Inv (w_ns w) -> base_of a <> DeepCopy ->
+  In t (taxa (w_ns w)) -> alookup t (acc (w_ns w)) = Some i ->
+  In t (taxa (w_ns (fst (astep lower w a)))) ->
+  alookup t (acc (w_ns (fst (astep lower w a)))) = Some i.
+Proof. exact abit_stable_l. Qed.
+Print Assumptions abort_bit_stable.
+
+(* 12c. the refused batch (immutable namespace) changes nothing; when every element handed over is a
+   member already the iterable's own error comes through, again with nothing changed *)
+Theorem abort_refused_untouched : forall (lower : lbl -> lbl) (w : world),
+  Inv (w_ns w) -> is_mut (w_ns w) = false ->
+  (forall ts e, (exists t, In t ts /\ ~ In t (taxa (w_ns w))) ->
+     astep lower w (AddTaxaAbort ts e) = (w, OErr TypeErr))
+  /\ (forall ts e, (forall t, In t ts -> In t (taxa (w_ns w))) ->
+     astep lower w (AddTaxaAbort ts e) = (w, OErr e))
+  /\ (forall ls e, astep lower w (NewTaxaAbort ls e) = (w, OErr TypeErr)).
+Proof. exact abort_refused_l. Qed.
+Print Assumptions abort_refused_untouched.
+
+(* 12d. add_taxa failing after ts on a mutable namespace: the iterable's error; exactly the distinct
+   not-yet-member objects among ts were appended (batch_new, 11a), the k-th with index counter+k; the
+   COUNTER was advanced past all of them (every member's index is below it, all_taxa_bitmask covers
+   them); old members keep their index; no object created *)
+Theorem add_taxa_abort_spec : forall (lower : lbl -> lbl) (w : world) (ts : list tid) (e : err),
+  Inv (w_ns w) -> is_mut (w_ns w) = true ->
+  let w' := fst (astep lower w (AddTaxaAbort ts e)) in
+  let new := batch_new (taxa (w_ns w)) ts in
+  snd (astep lower w (AddTaxaAbort ts e)) = OErr e
+  /\ taxa (w_ns w') = taxa (w_ns w) ++ new
+  /\ NoDup (taxa (w_ns w'))
+  /\ count (w_ns w') = count (w_ns w) + Z.of_nat (List.length new)
+  /\ (forall t i, alookup t (acc (w_ns w)) = Some i -> alookup t (acc (w_ns w')) = Some i)
+  /\ (forall k t, nth_error new k = Some t -> alookup t (acc (w_ns w')) = Some (count (w_ns w) + Z.of_nat k))
+  /\ (forall t i, In t (taxa (w_ns w')) -> alookup t (acc (w_ns w')) = Some i -> 0 <= i < count (w_ns w'))
+  /\ all_taxa_bitmask (w_ns w') = Z.shiftl 1 (count (w_ns w) + Z.of_nat (List.length new)) - 1
+  /\ w_lab w' = w_lab w /\ w_next w' = w_next w.
+Proof. exact add_taxa_abort_spec_l. Qed.
+Print Assumptions add_taxa_abort_spec.
+
+(* 12e. new_taxa failing after ls: one fresh member per label handed over, counter advanced by as many *)
+Theorem new_taxa_abort_spec : forall (lower : lbl -> lbl) (w : world) (ls : list lbl) (e : err),
+  (Inv (w_ns w) /\ forall t, In t (taxa (w_ns w)) -> t < w_next w) -> is_mut (w_ns w) = true ->
+  let w' := fst (astep lower w (NewTaxaAbort ls e)) in
+  let new := zseq (w_next w) (List.length ls) in
+  snd (astep lower w (NewTaxaAbort ls e)) = OErr e
+  /\ taxa (w_ns w') = taxa (w_ns w) ++ new
+  /\ NoDup (taxa (w_ns w'))
+  /\ w_next w' = w_next w + Z.of_nat (List.length ls)
+  /\ count (w_ns w') = count (w_ns w) + Z.of_nat (List.length ls)
+  /\ (forall k l, nth_error ls k = Some l ->
+        alookup (w_next w + Z.of_nat k) (acc (w_ns w')) = Some (count (w_ns w) + Z.of_nat k)
+        /\ label_of w' (w_next w + Z.of_nat k) = l)
+  /\ (forall t i, alookup t (acc (w_ns w)) = Some i -> alookup t (acc (w_ns w')) = Some i).
+Proof. exact new_taxa_abort_spec_l. Qed.
+Print Assumptions new_taxa_abort_spec.
+
+(* 12f. the NEXT addition after any operation - in particular after a failed batch - gets the index
+   `count`, which no member holds: every member keeps its own index, which is below it, and the masks
+   differ *)
+Theorem addition_after_abort_fresh_bit : forall (lower : lbl -> lbl) (w : world) (a : aop) (t : tid),
+  Inv (w_ns w) ->
+  let w1 := fst (astep lower w a) in
+  ~ In t (taxa (w_ns w1)) -> is_mut (w_ns w1) = true ->
+  let w2 := fst (astep lower w1 (ABase (AddTaxon t))) in
+  taxa (w_ns w2) = taxa (w_ns w1) ++ [t]
+  /\ alookup t (acc (w_ns w2)) = Some (count (w_ns w1))
+  /\ (forall u, In u (taxa (w_ns w1)) ->
+        exists i, alookup u (acc (w_ns w1)) = Some i /\ alookup u (acc (w_ns w2)) = Some i
+                  /\ 0 <= i < count (w_ns w1) /\ Z.shiftl 1 i <> Z.shiftl 1 (count (w_ns w1)))
+  /\ Inv (w_ns w2).
+Proof. exact addition_after_abort_fresh_bit_l. Qed.
+Print Assumptions addition_after_abort_fresh_bit.
+
+(* non-vacuity: members a(0) b(1); add_taxa over an iterable yielding x, a, y, x and then raising
+   ValueError leaves x(2) y(3) accessioned and the counter at 4; the next new taxon gets index 4 *)
+Theorem abort_examples :
+  (Inv (w_ns bx_w) /\
+   let '(w1, o1) := astep (fun l => l) bx_w (AddTaxaAbort [2; 0; 3; 2] ValueErr) in
+   let '(w2, o2) := astep (fun l => l) w1 (ABase (NewTaxon 7)) in
+   o1 = OErr ValueErr /\ observe w1 = [(0, 0); (1, 1); (2, 2); (3, 3)] /\ count (w_ns w1) = 4
+   /\ all_taxa_bitmask (w_ns w1) = 15
+   /\ o2 = OTax (Some 4) /\ observe w2 = [(0, 0); (1, 1); (2, 2); (3, 3); (4, 4)])
+  /\ (let '(w1, o1) := astep (fun l => l) bx_w (NewTaxaAbort [7; 7] KeyErr) in
+      let '(w2, o2) := astep (fun l => l) w1 (ABase (RequireTaxon 9 None)) in
+      o1 = OErr KeyErr /\ observe w1 = [(0, 0); (1, 1); (4, 2); (5, 3)]
+      /\ o2 = OTax (Some 6) /\ observe w2 = [(0, 0); (1, 1); (4, 2); (5, 3); (6, 4)])
+  /\ (let w := mkW (mkNs [0; 1] [(1, 1); (0, 0)] [(1, 1); (0, 0)] 2 [] false false) (w_lab bx_w) 4 in
+      astep (fun l => l) w (AddTaxaAbort [0; 2; 2] ValueErr) = (w, OErr TypeErr)
+      /\ astep (fun l => l) w (AddTaxaAbort [0; 1] ValueErr) = (w, OErr ValueErr)
+      /\ astep (fun l => l) w (NewTaxaAbort [5] ValueErr) = (w, OErr TypeErr)).
+Proof. exact (conj ax_abort_then_new (conj ax_abort_new_taxa ax_abort_immutable)). Qed.
+Print Assumptions abort_examples.
